@@ -3,6 +3,9 @@
 import json, os, subprocess
 V = os.path.dirname(os.path.dirname(os.path.abspath(__file__)))
 TEXT = {
+ 'C02': ('energy-ledger monitor: H, S, T, P, C of inlets and receiver recorded around real mix_from(energy_balance=True, Q) and separate_out calls and around H / h / S assignments; balances and read-backs evaluated against solver-derived bounds',
+         'Exploration: seeded cases with 1-4 non-empty inlets (single-inlet path separately), liquid and gas, heat input as number or heat object, receiver among the inlets, empty inlets, separate_out, H/h/S setters on single- and multi-phase streams incl. assignment of the current value.',
+         'Bound 1e-5 K x heat-capacity flow; entropy clauses skip (chemical, phase) pairs whose external heat-capacity integral fails the conditioning probe.'),
  'C03': ('conservation monitor: phase x chemical array of the real stream recorded before/after vle (11 specification pairs), lle (3 methods), sle, vlle and the same through mix_from(vle=True), separations.vle, receive_vent; column sums, signs and placement of phase-locked chemicals checked',
          'Exploration: seeded compositions of 1-6 volatile chemicals plus gas-locked and solid/liquid-locked members, every initial distribution, spec values across the stated ranges (H/S positioned between the V=0.02 and V=0.98 values), repeated calls on the same stream. Only normal returns are judged (the quantifier); raises are counted by type.',
          'Column sums compared with relative 1e-12 of the column and absolute 1e-12 of the total; programming errors (TypeError, AttributeError, ...) in the call path are still reported.'),
